@@ -201,7 +201,7 @@ partial def runLoop (hin hout : IO.FS.Stream) (a : ScenAcc) : IO Unit := do
   if line.isEmpty then return ()
   let toks := (line.trimAscii.toString.splitOn " ").filter (· ≠ "")
   if toks == ["end"] then
-    let o := Run.run a.opts a.key a.kvs a.files
+    let o := Run.main a.opts a.key a.kvs a.files
     for l in (renderOutput o).dropLast do hout.putStrLn l
     if a.fstrace && a.opts.callback == "csvdump" && o.exit == 0 then
       let ver := match Run.coinOf a.opts.coin with | some c => c.version | none => 0
